@@ -14,6 +14,6 @@ for f in Props/C*.v Props/Tie/*.v; do
 done
 for f in $(grep '\.v$' _CoqProject) Props/C*.v Props/Tie/*.v; do m=${f%.v}; mods="$mods LC.${m//\//.}"; done
 ( echo "# coqchk -o over $(echo $mods | wc -w) modules, $(date -u +%FT%TZ), coq $(coqc --version | head -1)"; 
-  timeout 7200 coqchk -silent -o -R . LC $mods 2>&1 | tail -n 60 ) > /verif/audit/coqchk.txt
+  timeout 7200 coqchk -silent -o -R . LC $mods 2>&1 | sed -n "/CONTEXT SUMMARY/,\$p" ) > /verif/audit/coqchk.txt
 echo rc=$? ; tail -n 30 /verif/audit/coqchk.txt
 cd /; rm -rf $EV
